@@ -46,9 +46,27 @@ pub struct Stats {
     pub check_extensions: u64,
     pub q_captures: u64,
     pub stalemates: u64,
+    pub q_ep: u64,
+    pub q_promo: u64,
 }
 
+/// Deliberately wrong variants of the reference ("flaws"), one per rule of the look-ahead
+/// game.  They never judge the engine: a case whose value changes under a flaw is counted
+/// as *sensitive* to that rule (class `sensitive:<flaw>`), which is how the evidence shows
+/// that the generated cases would expose an engine that got that rule wrong.
+pub const FLAWS: [(u8, &str); 8] = [
+    (1, "quiescence-ignores-en-passant"),
+    (2, "fifty-move-draw-skipped-when-in-check"),
+    (3, "quiescence-ignores-promotion-captures"),
+    (4, "repetition-draw-ignored"),
+    (5, "no-check-extension"),
+    (6, "mate-not-scored-by-distance"),
+    (7, "fifty-move-draw-ignored"),
+    (8, "no-stand-pat"),
+];
+
 pub struct Ref {
+    pub flaw: u8,
     pub qmemo: HashMap<u128, i32>,
     pub path: Vec<PosId>,
     pub budget: u64,
@@ -76,7 +94,7 @@ pub fn q_plain(p: &Pos, left: &mut i64) -> Option<i32> {
 
 impl Ref {
     pub fn new(earlier: &[PosId], budget: u64) -> Ref {
-        Ref { qmemo: HashMap::new(), path: earlier.to_vec(), budget, stats: Stats::default(), exceeded: false, cross_checked: 0, harness_fault: None }
+        Ref { flaw: 0, qmemo: HashMap::new(), path: earlier.to_vec(), budget, stats: Stats::default(), exceeded: false, cross_checked: 0, harness_fault: None }
     }
 
     /// Exact quiescence value of `p`: full-window fail-soft alpha-beta over the legal
@@ -92,7 +110,7 @@ impl Ref {
         if self.exceeded {
             return 0;
         }
-        if self.qmemo.len() % 64 == 0 {
+        if self.flaw == 0 && self.qmemo.len() % 64 == 0 {
             let mut left = 600i64;
             if let Some(u) = q_plain(p, &mut left) {
                 self.cross_checked += 1;
@@ -112,13 +130,23 @@ impl Ref {
             return 0;
         }
         let mut best = material(p);
+        let mut caps: Vec<Mv> = p.legal_moves().into_iter().filter(|m| m.is_capture()).collect();
+        if self.flaw == 0 {
+            self.stats.q_ep += caps.iter().filter(|m| m.is_ep()).count() as u64;
+            self.stats.q_promo += caps.iter().filter(|m| m.is_promo()).count() as u64;
+        }
+        match self.flaw {
+            1 => caps.retain(|m| !m.is_ep()),
+            3 => caps.retain(|m| !m.is_promo()),
+            8 if !caps.is_empty() => best = -1_000_000,
+            _ => {}
+        }
         if best >= beta {
             return best;
         }
         if best > alpha {
             alpha = best;
         }
-        let mut caps: Vec<Mv> = p.legal_moves().into_iter().filter(|m| m.is_capture()).collect();
         if caps.is_empty() {
             return best;
         }
@@ -155,17 +183,17 @@ impl Ref {
             self.exceeded = true;
             return 0;
         }
-        if p.hmc >= 100 {
+        let in_check = p.in_check(p.wtm);
+        if p.hmc >= 100 && self.flaw != 7 && !(self.flaw == 2 && in_check) {
             self.stats.fifty_draws += 1;
             return 0;
         }
         let id = p.pos_id();
-        if self.path.contains(&id) {
+        if self.path.contains(&id) && self.flaw != 4 {
             self.stats.repetition_draws += 1;
             return 0;
         }
-        let in_check = p.in_check(p.wtm);
-        if in_check {
+        if in_check && self.flaw != 5 {
             d += 1;
             self.stats.check_extensions += 1;
         }
@@ -176,7 +204,7 @@ impl Ref {
         if legal.is_empty() {
             if in_check {
                 self.stats.mate_scores += 1;
-                return MIN + ply as i32;
+                return if self.flaw == 6 { MIN } else { MIN + ply as i32 };
             }
             self.stats.stalemates += 1;
             return 0;
